@@ -20,4 +20,3 @@ func Run(id, tier string) int {
 	rep := f(tier)
 	return rep.Finish()
 }
-
